@@ -9,6 +9,8 @@ import (
 	"encoding/hex"
 	"encoding/json"
 	"fmt"
+	"github.com/ProtonMail/go-crypto/openpgp"
+	"github.com/ProtonMail/go-crypto/openpgp/packet"
 	"io"
 	"os"
 	"path/filepath"
@@ -503,6 +505,16 @@ func runSec(it *SecItem, ks *sut.KeySet, workRoot string) (res SecResult) {
 			forgeries = append(forgeries, forgery{"signed-by-another-key", seal(&c)})
 		}
 	}
+	// a record signed with a key of ANOTHER ALGORITHM than the writer's (an RSA key against the Curve25519 key
+	// Keygen makes): verification fails with a different kind of error than a wrong signature does
+	if it.Cfg.Signature == "pgp" {
+		if e, err := openpgp.NewEntity("forger", "", "forger@example.com", &packet.Config{Algorithm: packet.PubKeyAlgoRSA, RSABits: 2048}); err == nil {
+			c := *evil
+			if err := signature.SignHeader(&c, true, it.Cfg.Signature, openpgp.EntityList{e}); err == nil {
+				forgeries = append(forgeries, forgery{"signed-by-a-key-of-another-algorithm", seal(&c)})
+			}
+		}
+	}
 	// a signed content record replayed with its data cut away (outer size 0): the header is genuine,
 	// the restore must fail rather than return an empty file
 	for _, r := range scan.Recs {
@@ -519,6 +531,21 @@ func runSec(it *SecItem, ks *sut.KeySet, workRoot string) (res SecResult) {
 		}
 		if !judge("forge-"+f.kind, f.kind+" appended", appendArchive(f.hdr, nil)) {
 			return
+		}
+	}
+	// a signed content record replayed with foreign data of the same length and the unsigned outer header
+	// marked as a non-regular file (named pipe / character device bits in its mode field): the content must
+	// still be decoded and verified, not copied out raw
+	for _, r := range scan.Recs {
+		if r.Size > 0 && r.OuterHdr != nil {
+			for _, bits := range []int64{0o010000, 0o020000} {
+				h := *r.OuterHdr
+				h.Mode |= bits
+				if !judge("forge-wrapper-marked-nonregular", fmt.Sprintf("signed record replayed with foreign data and outer mode bits %o", bits), appendArchive(&h, bytes.Repeat([]byte("X"), int(r.Size)))) {
+					return
+				}
+			}
+			break
 		}
 	}
 	// swapped signatures between two records (both real, each valid for the other header)
